@@ -119,6 +119,14 @@ def reqresp_oracle(ix: Index, scn: dict) -> list[Violation]:
             out.append(Violation("error-class", str(err.get("cls")), f"{op.actor} raised non-API {err.get('cls')} on connection loss"))
         if stop_key is not None and stop_key[0] < closed_turn:
             out.append(Violation("error-despite-response", "", f"{op.actor} failed with {err.get('cls')} although its stop message had been delivered at turn {stop_key[0]} before the close at turn {closed_turn}"))
+    # nothing left behind, however the call ended: a few zero-time turns after each call ended, every request timeout
+    # timer still armed belongs to a call that is still running
+    for ev in ix.h:
+        if ev[3] == "post_op_timers" and ev[4]["armed"] > ev[4]["running"]:
+            op = next((o for o in ix.ops if o.actor == ev[4]["actor"] and o.i == ev[4]["i"]), None)
+            how = "?" if op is None else ("result" if op.ok else ("cancelled" if op.cancelled else str((op.err or {}).get("cls"))))
+            out.append(Violation("timer-left", f"after-{how}", f"{ev[4]['armed']} request timeout timer(s) armed but only {ev[4]['running']} call(s) running, right after {ev[4]['actor']} ended ({how})"))
+            break
     # leak audit
     a = ix.audit
     if a is not None:
@@ -203,6 +211,7 @@ def gen_c11(rng: random.Random) -> dict:
             ssteps += [{"do": "sleep", "d": pick(rng, [0.0, 0.02, 0.1, 0.3, 0.6])}, {"do": "remove_cb", "sid": "s0"}]
         actors.append({"id": "s", "at": {"t": t0 - pick(rng, [0.4, 0.2, 0.05, 0.0])}, "steps": ssteps})
     return {
+        "probe_ops": True,
         "family": "reqresp",
         "knobs": gen_knobs(rng),
         "client": client,
